@@ -1,4 +1,4 @@
 From Coq Require Extraction ExtrOcamlBasic.
-From Rpgp Require Import Base.Octets Base.Res Sig.Preimage Sig.Fingerprint.
+From Rpgp Require Import Base.Octets Base.Res Sig.Preimage Sig.Fingerprint Rules.Identity.
 Extraction Language OCaml.
-Separate Extraction Byte.to_N Byte.of_N Fingerprint.fp_preimage Fingerprint.fp_preimage_v3 Fingerprint.fp_hash Fingerprint.keyid Fingerprint.keyid_v3.
+Separate Extraction Byte.to_N Byte.of_N Fingerprint.fp_preimage Fingerprint.fp_preimage_v3 Fingerprint.fp_hash Fingerprint.keyid Fingerprint.keyid_v3 Identity.sig_match Identity.esk_match.
